@@ -59,8 +59,8 @@ ASSUMPTIONS = [
     "preemption points: every line of strax/context.py and strax/utils.py plus the executor / wait operations; "
     "lines of other modules (plugin.py, storage, processors) execute atomically",
     "the width of the run_id column's string dtype is not specified; its kind (unicode / bytes) and values are",
-    "realthreads: a failure on real threads counts only when a seeded search finds a controlled schedule with the "
-    "same failure clause, otherwise the case is inconclusive",
+    "realthreads: a failure on real threads counts only when a seeded search (24 schedules) finds a controlled "
+    "schedule with the same failure clause (exception type aside), otherwise the case is inconclusive",
     "numba-jitted helpers run as plain Python (NUMBA_DISABLE_JIT=1): they are not the subject of this property",
 ]
 TRACE_FILES = ("strax/context.py", "strax/utils.py")
@@ -881,9 +881,10 @@ def run_real(d):
             try:
                 verdict(E, seq, ctx, path, res, exc, S, S.worker_errors)
             except Violation as v2:
-                if v2.clause == clause:
-                    raise Violation(clause, f"[real threads: {real_msg}] reproduced under controlled schedule {pol}: "
-                                    f"{v2.detail}") from v2
+                # same failure family (the exception type may differ: RuntimeError / KeyError are two faces of one race)
+                if v2.clause.split(":")[0] == clause.split(":")[0]:
+                    raise Violation(v2.clause, f"[real threads: {real_msg}] reproduced under controlled schedule "
+                                    f"{pol}: {v2.detail}") from v2
         raise Inconclusive(f"real-thread failure {clause} not reproduced under 24 controlled schedules")
     finally:
         E.close()
